@@ -25,35 +25,53 @@ FLAVOURS = ["gas"]
 SRCNAME = "c04synth.c"
 
 
-def asm_for(table):
-    rows, funcs = table["rows"], table["funcs"]
+def layout(tables):
+    """Several witness tables side by side in one object: table k keeps its shape, its lines are shifted by
+    10*k (so file:line queries of different tables do not interact), its functions are named c04s_t<k>_f<i>,
+    and 16 bytes of padding separate it from the next table."""
+    groups = []
+    for k, t in enumerate(tables):
+        seqs = sorted({r["seq"] for r in t["rows"]})
+        fns = []
+        for i, (sq, f) in enumerate(zip(seqs, t["funcs"])):
+            rs = [dict(r, line=r["line"] + 10 * k) for r in t["rows"] if r["seq"] == sq]
+            fns.append({"name": "c04s_t%d_f%d" % (k, i + 1), "lo": f["lo"], "hi": f["hi"], "rows": rs})
+        groups.append(fns)
+    return groups
+
+
+def asm_for(tables):
+    groups = layout(tables)
     L = ['\t.file 1 "%s"' % SRCNAME]
-    # main first, then padding, then the table
+    # main first, then padding, then the tables
     L += ['\t.section .text.c04s0,"ax",@progbits', '\t.globl main', '\t.type main,@function', 'main:',
-          '\t.loc 1 100 1', '\tpush %rbp', '\t.loc 1 101 1 prologue_end', '\txor %eax,%eax', '\tpop %rbp',
-          '\t.loc 1 102 1', '\tret', '.Lmain_end:', '\t.size main,.-main',
-          '\t.section .text.c04s0p,"ax",@progbits', '\t.fill 7,1,0xcc']
-    seqs = sorted({r["seq"] for r in rows})
-    prev_hi = None
-    for k, (sq, f) in enumerate(zip(seqs, funcs)):
-        rs = [r for r in rows if r["seq"] == sq]
-        if prev_hi is not None and f["lo"] > prev_hi:
-            L += ['\t.section .text.c04s%dp,"ax",@progbits' % (k + 1), '\t.fill %d,1,0xcc' % (f["lo"] - prev_hi)]
-        L += ['\t.section .text.c04s%d,"ax",@progbits' % (k + 1), '\t.globl c04s_f%d' % (k + 1),
-              '\t.type c04s_f%d,@function' % (k + 1), 'c04s_f%d:' % (k + 1)]
-        cur = f["lo"]
-        for i, r in enumerate(rs):
-            if r["es"]:
+          '\t.loc 1 200 1', '\tpush %rbp', '\t.loc 1 201 1 prologue_end', '\txor %eax,%eax', '\tpop %rbp',
+          '\t.loc 1 202 1', '\tret', '.Lmain_end:', '\t.size main,.-main']
+    sec = 0
+    allf = []
+    for fns in groups:
+        sec += 1
+        L += ['\t.section .text.c04s%03dp,"ax",@progbits' % sec, '\t.fill 16,1,0xcc']
+        prev_hi = None
+        for f in fns:
+            if prev_hi is not None and f["lo"] > prev_hi:
+                sec += 1
+                L += ['\t.section .text.c04s%03dg,"ax",@progbits' % sec, '\t.fill %d,1,0xcc' % (f["lo"] - prev_hi)]
+            sec += 1
+            n = f["name"]
+            L += ['\t.section .text.c04s%03d,"ax",@progbits' % sec, '\t.globl %s' % n, '\t.type %s,@function' % n,
+                  '%s:' % n]
+            cur = f["lo"]
+            for r in f["rows"]:
                 L += ['\tnop'] * (r["addr"] - cur)
                 cur = r["addr"]
-                break
-            L += ['\tnop'] * (r["addr"] - cur)
-            cur = r["addr"]
-            opts = (" prologue_end" if r["pe"] else "") + (" is_stmt 1" if r["stmt"] else " is_stmt 0")
-            L.append('\t.loc 1 %d %d%s' % (r["line"], r["col"], opts))
-        L += ['.Lf%d_end:' % (k + 1), '\t.size c04s_f%d,.-c04s_f%d' % (k + 1, k + 1)]
-        prev_hi = f["hi"]
-    n = len(funcs)
+                if r["es"]:
+                    break
+                opts = (" prologue_end" if r["pe"] else "") + (" is_stmt 1" if r["stmt"] else " is_stmt 0")
+                L.append('\t.loc 1 %d %d%s' % (r["line"], r["col"], opts))
+            L += ['.L%s_end:' % n, '\t.size %s,.-%s' % (n, n)]
+            prev_hi = f["hi"]
+            allf.append(n)
     # ---- .debug_abbrev
     L += ['\t.section .debug_abbrev,"",@progbits',
           '\t.uleb128 1', '\t.uleb128 0x11', '\t.byte 1',          # compile_unit, children
@@ -74,22 +92,21 @@ def asm_for(table):
           '\t.uleb128 0x12', '\t.uleb128 0x07',                     # high_pc data8
           '\t.byte 0', '\t.byte 0', '\t.byte 0']
     # ---- .debug_info (DWARF 4, 64-bit addresses)
-    last = '.Lf%d_end' % n
     L += ['\t.section .debug_info,"",@progbits', '\t.long .Linfo_end-.Linfo_start', '.Linfo_start:',
           '\t.value 4', '\t.long .debug_abbrev', '\t.byte 8',
           '\t.uleb128 1', '\t.string "c04 synth (gcc style, no forced prologue_end)"', '\t.byte 0x0c',
           '\t.string "%s"' % SRCNAME, '\t.string "%s"' % str(vlib.WORK / "c04"),
-          '\t.quad main', '\t.quad %s' % last, '\t.long .debug_line',
-          '\t.uleb128 2', '\t.string "main"', '\t.byte 1', '\t.byte 100', '\t.quad main', '\t.quad .Lmain_end-main']
-    for k, f in enumerate(funcs):
-        L += ['\t.uleb128 2', '\t.string "c04s_f%d"' % (k + 1), '\t.byte 1', '\t.byte %d' % (k + 1),
-              '\t.quad c04s_f%d' % (k + 1), '\t.quad .Lf%d_end-c04s_f%d' % (k + 1, k + 1)]
+          '\t.quad main', '\t.quad .L%s_end' % allf[-1], '\t.long .debug_line',
+          '\t.uleb128 2', '\t.string "main"', '\t.byte 1', '\t.byte 200', '\t.quad main', '\t.quad .Lmain_end-main']
+    for n in allf:
+        L += ['\t.uleb128 2', '\t.string "%s"' % n, '\t.byte 1', '\t.byte 1',
+              '\t.quad %s' % n, '\t.quad .L%s_end-%s' % (n, n)]
     L += ['\t.byte 0', '.Linfo_end:', '\t.section .note.GNU-stack,"",@progbits']
     return "\n".join(L) + "\n"
 
 
-def build(table, flavour):
-    text = asm_for(table)
+def build(tables, flavour):
+    text = asm_for(tables)
     h = hashlib.sha1((text + flavour).encode()).hexdigest()[:16]
     outdir = vlib.PUPPET_BUILD / f"c04-synth-{h}"
     exe = outdir / "c04synth"
@@ -109,58 +126,73 @@ def build(table, flavour):
     return exe
 
 
-def source_file():
-    """The (contentless) source the synthesised DWARF names; line queries go from 1 to 6."""
+def source_file(nlines=120):
+    """The (contentless) source the synthesised DWARF names."""
     p = vlib.WORK / "c04" / SRCNAME
     p.parent.mkdir(parents=True, exist_ok=True)
-    if not p.exists():
-        p.write_text("\n" * 5)
+    if not p.exists() or len(p.read_text()) != nlines:
+        p.write_text("\n" * nlines)
     return p
 
 
-def decode(exe, table):
-    """Independent decode of the synthesised object + the check that it carries the intended table."""
+def decode(exe, tables):
+    """Independent decode of the synthesised object + the check that it carries the intended tables."""
     src = source_file()
     dec = oracle.decode(str(exe), str(src), cu_name=SRCNAME)
-    fs = [f for f in dec["funcs"] if f["name"].startswith("c04s_f")]
-    if len(fs) != len(table["funcs"]):
-        return None, "function count differs"
-    base = fs[0]["ranges"][0][0] - table["funcs"][0]["lo"]
-    got = sorted((r["addr"] - base, r["line"], r["col"], r["stmt"], r["pe"], r["es"])
-                 for r in dec["rows"] if r["addr"] - base >= table["funcs"][0]["lo"] and r["line"] < 100)
-    want = sorted((r["addr"], r["line"], r["col"], r["stmt"], r["pe"], r["es"]) for r in table["rows"])
-    if got != want:
-        return None, f"assembler produced a different table: {got} instead of {want}"
+    byname = {f["name"]: f for f in dec["funcs"]}
+    for fns in layout(tables):
+        if any(f["name"] not in byname for f in fns):
+            return None, "function missing in the decoded object"
+        base = byname[fns[0]["name"]]["ranges"][0][0] - fns[0]["lo"]
+        lo, hi = fns[0]["lo"], fns[-1]["hi"]
+        got = sorted((r["addr"] - base, r["line"], r["col"], r["stmt"], r["pe"], r["es"])
+                     for r in dec["rows"] if lo <= r["addr"] - base <= hi and r["line"] < 200)
+        want = sorted((r["addr"], r["line"], r["col"], r["stmt"], r["pe"], r["es"]) for f in fns for r in f["rows"])
+        if got != want:
+            return None, f"assembler produced a different table for {fns[0]['name']}: {got} instead of {want}"
     for f in dec["funcs"]:
         f["user"] = True
-    # every byte of the synthesised functions is an instruction (nop); main's instructions from objdump
     return dec, None
 
 
-def run_table(rep, exe_harness, witness, flavour, totals, only=None):
-    from checks import c04 as chk
-    table = witness["table"]
+def representable(table, flavour):
     try:
-        exe = build(table, flavour)
-    except vlib.ToolError as e:
-        vlib.log(f"[C04/S] {witness['class']}/{flavour}: cannot assemble ({str(e)[:200]})")
-        totals.setdefault("synth-skipped", {})[f"{witness['class']}/{flavour}"] = "cannot assemble"
-        return None
-    dec, why = decode(exe, table)
-    tag = hashlib.sha1(json.dumps(table, sort_keys=True).encode()).hexdigest()[:8]
+        exe = build([table], flavour)
+    except vlib.ToolError:
+        return False
+    return decode(exe, [table])[0] is not None
+
+
+def run_tables(rep, exe_harness, witnesses, flavour, totals, only=None):
+    """All representable witness tables in ONE object -> one TLC evaluation, one debugger session."""
+    from checks import c04 as chk
+    tables, classes, skipped = [], [], []
+    for w in witnesses:
+        if w["table"] in tables:
+            continue
+        if representable(w["table"], flavour):
+            tables.append(w["table"])
+            classes.append(w["class"])
+        else:
+            skipped.append(w["class"])
+    if skipped:
+        vlib.log(f"[C04/S] not representable with `as` (a trailing .loc without an instruction is dropped): {skipped}")
+        totals.setdefault("synth", {})["not_representable"] = skipped
+    if not tables:
+        raise vlib.ToolError("no witness table could be synthesised")
+    exe = build(tables, flavour)
+    dec, why = decode(exe, tables)
     if dec is None:
-        vlib.log(f"[C04/S] {witness['class']}/{flavour}: not representable ({why[:160]})")
-        totals.setdefault("synth-skipped", {})[f"{witness['class']}/{flavour}"] = why[:300]
-        return None
+        raise vlib.ToolError(f"combined synthesised object is not the intended table: {why}")
+    tag = hashlib.sha1(json.dumps(tables, sort_keys=True).encode()).hexdigest()[:8]
     expected, r = oracle.evaluate(dec, vlib.WORK / "c04" / f"eval-synth-{tag}-{flavour}", workers=1)
-    return chk.run_binary(rep, exe_harness, f"synth:{tag}", flavour, exe, source_file(), dec, expected, totals,
-                          only=only, synth={"table": table, "flavour": flavour, "class": witness["class"]})
+    case = chk.run_binary(rep, exe_harness, "synth", flavour, exe, source_file(), dec, expected, totals,
+                          only=only, synth={"tables": tables, "flavour": flavour, "classes": classes})
+    return case, len(tables), r
 
 
 def replay(rep, exe_harness, sc, totals):
-    w = {"class": sc["synth"].get("class", "replay"), "table": sc["synth"]["table"]}
+    ws = [{"class": c, "table": t} for c, t in zip(sc["synth"]["classes"], sc["synth"]["tables"])]
     q = sc["query"] if sc["query"].get("q") not in ("start", "session") else None
-    case = run_table(rep, exe_harness, w, sc["synth"]["flavour"], totals, only=q)
-    if case is None:
-        raise vlib.ToolError("replay: the synthesised object could not be rebuilt")
+    run_tables(rep, exe_harness, ws, sc["synth"]["flavour"], totals, only=q)
     return 1
